@@ -144,6 +144,15 @@ class Closure(object):
         self.qualname = qualname
 
 
+class TableRef(object):
+    """the value of `table[key]` for a dispatch table whose CALL the contract abstracts by a library model
+    (abstract_calls={"table[key]": model}): looked up now, called later - calling it is the same abstracted call"""
+
+    def __init__(self, model, key):
+        self.model = model
+        self.key = key
+
+
 class LocalClass(object):
     """a class statement inside the function under analysis whose body only defines methods (nested defs) and aliases of
     them: the class is its table of closures"""
@@ -1939,7 +1948,53 @@ class Executor(object):
             return
         yield st, v
 
+    def table_models(self):
+        """source text of the dispatch tables whose calls the current contract abstracts: {"self._HANDLERS": model}"""
+        out = {}
+        for src, model in (self.cur[0].abstract_calls or {}).items():
+            try:
+                n = ast.parse(src, mode="eval").body
+            except SyntaxError:
+                continue
+            if isinstance(n, ast.Subscript):
+                out[ast.unparse(n.value)] = model
+        return out
+
+    def table_lookup(self, st, e, model):
+        """`table[key]` on its own (the call comes later): the model's lookup failures happen here, the rest when it is called"""
+        ext = self.store.externals[model]
+        names = list(ext.params)
+        for st1, k in self.ev(st, e.slice):
+            if isinstance(k, Raised):
+                yield st1, k
+                continue
+            env = {names[0]: self.abstract_self(st1), names[1]: k}
+            found = st1
+            for oc in ext.outcomes:
+                if oc.get("at") != "lookup":
+                    continue
+                conds = []
+                for a in oc.get("when", []):
+                    z, facts = self.spec.evaluate_bool(self, a, st1, st1, env)
+                    st1.pc.extend(facts)
+                    conds.append(z)
+                c = z3.And(conds) if conds else z3.BoolVal(True)
+                bad = st1.fork().assume(c).label("L%d:%s %s" % (self.rel_line(e), model, oc.get("label", "lookup fails")))
+                if self.feasible(bad):
+                    ecls = self.spec.exc_class(oc["raise"], None)
+                    yield bad, Raised(ecls, ExcObj(ecls))
+                found = found.fork().assume(z3.Not(c))
+            if self.feasible(found):
+                yield found, TableRef(model, k)
+
     def ex_Subscript(self, st, e):
+        if isinstance(e.ctx, ast.Load) and self.cur is not None and self.cur[0].abstract_calls:
+            tm = self.table_models()
+            src = ast.unparse(e.value)
+            if src in tm:
+                for r in self.table_lookup(st, e, tm[src]):
+                    yield r
+                return
         for st1, o in self.ev(st, e.value):
             if isinstance(o, Raised):
                 yield st1, o
@@ -1974,6 +2029,12 @@ class Executor(object):
                 for r in self.abstract_call(st, e, src, ac[src]):
                     yield r
                 return
+            if isinstance(e.func, ast.Subscript):
+                tm = self.table_models()
+                if ast.unparse(e.func.value) in tm:          # the same table, its key written differently
+                    for r in self.abstract_call(st, e, src, tm[ast.unparse(e.func.value)]):
+                        yield r
+                    return
         # comprehension idioms first
         if isinstance(e.func, ast.Name) and e.func.id in ("tuple", "all", "any", "list") and len(e.args) == 1 \
                 and isinstance(e.args[0], ast.GeneratorExp) and e.func.id not in st.env:
@@ -1983,6 +2044,17 @@ class Executor(object):
         for st1, f in self.ev(st, e.func):
             if isinstance(f, Raised):
                 yield st1, f
+                continue
+            if isinstance(f, TableRef):
+                # the looked-up table entry is called: the abstracted call, with the key it was looked up under
+                exprs = [a.value if isinstance(a, ast.Starred) else a for a in e.args] + [k.value for k in e.keywords]
+                for st2, vs in self.ev_seq(st1, exprs):
+                    if isinstance(vs, Raised):
+                        yield st2, vs
+                        continue
+                    ext = self.store.externals[f.model]
+                    for r in self.lib.apply_external(self, st2, ext, [self.abstract_self(st2), f.key] + list(vs), {}, e, skip_at="lookup"):
+                        yield r
                 continue
             plain_args = [a for a in e.args if not isinstance(a, ast.Starred)]
             star = [a for a in e.args if isinstance(a, ast.Starred)]
